@@ -126,6 +126,19 @@ fn foreign_adt<'tcx>(tcx: TyCtxt<'tcx>, t: ty::Ty<'tcx>, out: &mut Vec<J>, seen:
     }
 }
 
+/// size in bytes of a non-generic ADT (null when it has generic parameters or no layout)
+fn adt_size(tcx: TyCtxt<'_>, did: rustc_span::def_id::DefId) -> J {
+    if tcx.generics_of(did).count() != 0 {
+        return J::Null;
+    }
+    let ty = tcx.type_of(did).instantiate_identity().skip_norm_wip();
+    let env = rustc_middle::ty::TypingEnv::fully_monomorphized();
+    match tcx.layout_of(env.as_query_input(ty)) {
+        Ok(l) => J::Int(l.size.bytes() as i128),
+        Err(_) => J::Null,
+    }
+}
+
 fn items(tcx: TyCtxt<'_>) -> J {
     let mut structs = vec![];
     let mut enums = vec![];
@@ -153,6 +166,7 @@ fn items(tcx: TyCtxt<'_>) -> J {
                 }
                 structs.push(J::Obj(vec![
                     ("path", J::s(def_path(tcx, did))),
+                    ("size", adt_size(tcx, did)),
                     ("loc", loc(tcx, item.span)),
                     ("vis", J::s(format!("{:?}", tcx.visibility(did)))),
                     ("tuple", J::Bool(adt.non_enum_variant().ctor_kind() == Some(rustc_hir::def::CtorKind::Fn))),
@@ -173,6 +187,7 @@ fn items(tcx: TyCtxt<'_>) -> J {
                 }
                 enums.push(J::Obj(vec![
                     ("path", J::s(def_path(tcx, did))),
+                    ("size", adt_size(tcx, did)),
                     ("loc", loc(tcx, item.span)),
                     ("repr", J::s(format!("{:?}", adt.repr().int))),
                     ("attrs", attrs_json(tcx, item.hir_id())),
